@@ -59,7 +59,7 @@ func newClientCxn(l lane.Lane, cxn net.Conn, dispatcher *cmdDispatcher, onClosed
 
 	cc.queueStateChange(csInitialize, nil)
 
-	go cc.run()
+	simGo(cc.run)
 
 	return cc
 }
@@ -266,7 +266,7 @@ func (cc *clientCxn) parseCommand() (cmd respValue, length int) {
 
 func (cc *clientCxn) onDispatchCommand(cmd respValue) {
 	cc.dispatching.Add(1)
-	go func() {
+	simGo(func() {
 		defer cc.dispatching.Done()
 		simTaskBegin("cmd", cc.cs.id)
 		defer simTaskEnd()
@@ -289,7 +289,7 @@ func (cc *clientCxn) onDispatchCommand(cmd respValue) {
 			simAfterUnlock(&infoMu, "infoMu")
 			cc.queueStateChange(csWaitForCommand, nil)
 		}
-	}()
+	})
 }
 
 func (cc *clientCxn) ServerAddr() string {
